@@ -250,8 +250,8 @@ def run(ctx):
                     lines = [l for l in f if l.strip()]
             emitted += len(lines)
             ctx.cov["legs"]["MCAmlNs%s%s" % (p, tier)]["programs_emitted"] = len(lines)
-            if q and len(lines) > 2500:
-                lines = rnd.sample(lines, 2500)
+            if q and len(lines) > 2000:
+                lines = rnd.sample(lines, 2000)
             gf.writelines(lines)
             n_progs += len(lines)
     if not n_progs:
@@ -260,7 +260,7 @@ def run(ctx):
     t_out = os.path.join(ctx.work, "t_trace.ndjson")
     r_in, r_out = os.path.join(ctx.work, "r_in.ndjson"), os.path.join(ctx.work, "r_trace.ndjson")
     write_progs(r_in, [e["reproducer"]["toks"] for e in findings])
-    n_random = 90 if q else 1000
+    n_random = 80 if q else 1000
     run_go(ctx, g_in, g_out, t_out, n_random, r_in, r_out, excl)
 
     # ---- leg V: one pool of monitor processes judges both traces (random programs carry ids > 10^6)
@@ -295,7 +295,7 @@ def run(ctx):
     ctx.cov["legs"]["G+T"]["programs_emitted_by_model"] = emitted
     ctx.cov["exhaustive"] = (not q) and not ctx.violations
     ctx.cov["explanation"] = ("exhaustive = every complete program of the four TLC scopes (thorough tier: %d programs) was encoded, parsed by the "
-                              "real parser and judged; the quick tier replays a seeded sample of at most 2500 programs per scope" % emitted)
+                              "real parser and judged; the quick tier replays a seeded sample of at most 2000 programs per scope" % emitted)
 
 
 def replay(ctx, path):
